@@ -402,10 +402,13 @@ func TestC30Routing(t *testing.T) {
 			"Asserted for every kind: the walk ends at the endpoint the port is plugged into, uses only links that were built, never visits a switch twice. "+
 			"Hop count = number of switch-to-switch links walked (the last hop switch->endpoint is not counted): equals the harness' BFS distance for the generic connector with the default/explicit Floyd-Warshall router and for PCIe, equals the Manhattan distance between the tiles for the mesh; not asserted for the bandwidth-first router (generic 'bw', NVLink). "+
 			"Reuse: for the 2nd/3rd network of a sequence a fresh connector in a fresh registrar gets the same build calls and all walks must be identical (switch indices; names play no role). "+
+			"Multi-round builds (half of the generic networks, classes 'grown:*'): the topology is built on one connector/network in 2-4 rounds, each = AddSwitch for the new switches, ConnectSwitches/ConnectDevice for a drawn part of the links and devices, EstablishRoute(); every intermediate network is connected (switches relabelled in a drawn connected order; each switch comes with one anchor link to an earlier switch; all other links - chords that close a cycle or double a link - and all devices come in a drawn later-or-same round; a round may also add nothing). "+
+			"After every EstablishRoute() the network as built so far is judged by the same walk oracle, and the final tables must equal those of a fresh connector that builds the final topology in one go (same order of links among themselves and of devices among themselves). "+
 			"While the finding '"+sigReuse+"' is listed, generic sequences are steered to device-less earlier networks and PCIe sequences are cut to one network (counted as excluded). "+
-			"Non-trivial: a network whose switch graph has a cycle and a device >=2 links away from some switch, or a reuse comparison that was carried out")
+			"Non-trivial: a network whose switch graph has a cycle and a device >=2 links away from some switch, or a reuse comparison that was carried out, or a multi-round build in which a later round changed the walk of a (switch, device port) pair that was already routed")
 	defer s.End()
 	s.Assume("switch index = order of creation = the ID the connector returns; endpoint index = order of the ConnectDevice/PlugInDevice/tile calls")
+	s.Assume("calling Connector.EstablishRoute() again after adding switches, links or devices to the same network is supported use: the connector is an accumulating builder without a 'finished' state, EstablishRoute is documented as 'run the router to populate every switch's routing table' / 'sets the routing table for all the nodes' and routing.Table.DefineRoute as 'records that traffic whose final destination is finalDst should leave through outputPort' (a map store: the last definition holds); nothing restricts it to one call")
 
 	_, steer := s.IsKnown(sigReuse)
 
